@@ -99,8 +99,9 @@ int GenCtx::pick_channels (const Fmt &f, int rate)
 {	for (int tries = 0 ; tries < 8 ; tries ++)
 	{	int ch ;
 		uint64_t r = rng.below (100) ;
-		if (r < 40) ch = 1 ; else if (r < 65) ch = 2 ; else if (r < 75) ch = 3 ; else if (r < 82) ch = 4 ;
-		else if (r < 88) ch = 6 ; else if (r < 94) ch = 8 ; else if (r < 97) ch = f.max_ch ; else ch = (int) rng.range (1, f.max_ch > 16 ? 16 : f.max_ch) ;
+		// the usual counts, the container's maximum, and (15 %) any count up to 16: 5, 7 and 9..15 divide none of the staging buffer sizes
+		if (r < 38) ch = 1 ; else if (r < 58) ch = 2 ; else if (r < 66) ch = 3 ; else if (r < 72) ch = 4 ;
+		else if (r < 77) ch = 6 ; else if (r < 82) ch = 8 ; else if (r < 85) ch = f.max_ch ; else ch = (int) rng.range (1, f.max_ch > 16 ? 16 : f.max_ch) ;
 		if (ch > f.max_ch) ch = f.max_ch ;
 		if (ch > 64 && !f.sample_granular ()) ch = f.max_ch > 2 ? 2 : f.max_ch ;
 		if (valid_channels (f, ch, rate)) return ch ;
